@@ -73,6 +73,9 @@ def write_overlay():
                 rep[os.path.join(REPO, rel)] = os.path.join(root, f)
     for f in glob.glob(os.path.join(VERIF, "harness", "verifutil", "*.go")):
         rep[os.path.join(REPO, "internal", "verifutil", os.path.basename(f))] = f
+    # the crossplane module (its own go.mod) gets the case writer as a package of its own
+    rep[os.path.join(REPO, "tests", "framework", "crossplane", "cmd", "crossplane", "vu", "util.go")] = \
+        os.path.join(VERIF, "harness", "verifutil", "util.go")
     os.makedirs(WORK, exist_ok=True)
     # one overlay file per target tree: concurrent checks with different VERIF_REPO must not overwrite each other
     tag = "" if REPO == "/repo" else "-" + hashlib.sha1(REPO.encode()).hexdigest()[:10]
